@@ -13,7 +13,7 @@ import (
 func newVC(eng *Engine, fi *FuncInfo, ct *Contract) *VC {
 	vc := &VC{eng: eng, fn: fi, contract: ct,
 		declared: map[string]bool{}, defOf: map[string]string{}, heapSort: map[string]string{},
-		inlined: map[string]bool{}, assumedContracts: map[string]bool{}, callOrd: map[string]int{}, safetyOrd: map[string]int{},
+		inlined: map[string]bool{}, assumedContracts: map[string]bool{}, calledContracts: map[string]bool{}, callOrd: map[string]int{}, safetyOrd: map[string]int{},
 		boxFuncs: map[string]bool{}, ufuns: map[string]bool{},
 		aliasOf: map[*types.Var]ast.Expr{}, hiddenVars: map[*ast.RangeStmt]types.Object{}, capturedAssigned: map[*types.Var]bool{},
 		boxed: map[*types.Var]*types.Var{}, resultEnv: map[string]Val{}, shadow: map[*types.Var]*types.Var{}, usedLemmas: map[string]bool{}, rangeAsserted: map[string]bool{}, frameFacts: map[string][]string{}}
